@@ -32,17 +32,21 @@ def main():
     try:
         rc, out = sh("go build ./pkg/... 2>&1 | grep -v quic-go | head -30")
         rc, out = sh("go test -vet=off -count=1 -timeout 25m ./... 2>&1")
-        fails = [l for l in out.splitlines() if l.startswith("FAIL") or l.startswith("--- FAIL") or l.startswith("panic:")]
-        bad = [l for l in fails if not any(ok in l for ok in BASELINE_FAIL_OK) and l.strip() != "FAIL"]
+        norm = lambda l: re.sub(r"\s+\(?[0-9.]+s\)?$", "", l.strip())
+        fails = [norm(l) for l in out.splitlines() if l.startswith("FAIL") or l.startswith("--- FAIL") or l.startswith("panic:")]
+        base = set(json.load(open(os.path.join(V, "tools", "baseline_fail.json"))))
+        bad = [l for l in fails if l not in base and l != "FAIL"]
         oks = len([l for l in out.splitlines() if l.startswith("ok ")])
+        if oks < 38:
+            bad.append("only %d packages ok (baseline 38)" % oks)
         print("suite: %d packages ok; FAIL lines: %s" % (oks, fails))
         if bad:
             raise SystemExit("baseline suite regressed:\n" + "\n".join(bad) + "\n" + out[-3000:])
         # the quic-dependent package is not built by the baseline; build+test it through the stub as an extra
         mf = os.path.join(V, "run", "go.verif.mod")
         if os.path.exists(mf):
-            rc2, out2 = sh("go test -modfile=%s -ldflags=-checklinkname=0 -vet=off -count=1 ./pkg/object/httpserver/" % mf)
-            print("httpserver (via stub): exit", rc2)
+            rc2, out2 = sh("go test -modfile=%s -ldflags=-checklinkname=0 -vet=off -count=1 ./pkg/..." % mf)
+            print("all pkg tests incl. quic-dependent packages (via stub): exit", rc2)
             if rc2 != 0:
                 raise SystemExit(out2[-3000:])
         rc, out = sh(["git", "commit", "-qam", msg])
